@@ -433,7 +433,11 @@ def run_impl(c):
             return {"ok": r} if r is not None and np.asarray(v).ndim == 1 else {"bad": "non-integer result"}
         if c.op == "update":
             K = py_kt(np, ttb, a["kt"], a["layout"])
-            K.update(a["modes"], np.array(a["data"], dtype=float))
+            before = obs_kt(np, K)
+            try:
+                K.update(a["modes"], np.array(a["data"], dtype=float))
+            except Exception as ex:      # /repo b9311d6: a rejected request must leave the receiver as it was
+                return {"exc": type(ex).__name__, "receiver_changed": obs_kt(np, K) != before}
             r = obs_kt(np, K)
             return {"ok": r} if r is not None else {"bad": "non-integer result"}
         if c.op == "from_vector":
@@ -568,6 +572,8 @@ def coq_check(c, o):
     if c.op == "tovec":
         return _res("vec_eqb", f"ktensor_tovec {gkt(a['kt'])} {gbool(a['incl'])}", o, gzlist)
     if c.op == "update":
+        if o.get("receiver_changed"):
+            return "false"        # C08_gen_update_rejected_before_store: the generated text rejects before its first store
         return _res("w4_kt_eqb", f"ktensor_update {gkt(a['kt'])} {gzlist(a['modes'])} {gzlist(a['data'])}", o, gkt)
     if c.op == "from_vector":
         return _res("w4_kt_eqb", f"ktensor_from_vector tt {gzlist(a['data'])} {gzlist(a['shape'])} {gbool(a['cw'])}", o, gkt)
@@ -839,4 +845,26 @@ def oracle(c, o):
         R = len(k["w"])
         want = (list(k["w"]) if a["incl"] else []) + [m[i][r] for m in k["f"] for r in range(R) for i in range(len(m))]
         return None if o.get("ok") == want else f"tovec returned {o}, weights then the columns of every factor are {want}"
+    if c.op == "update":
+        k, modes, data = a["kt"], a["modes"], a["data"]
+        R, nd = len(k["w"]), len(k["f"])
+        if o.get("receiver_changed"):
+            return f"update({modes}, {len(data)} values) was rejected ({o['exc']}) after it had overwritten part of the receiver"
+        valid = all(x < y for x, y in zip(modes, modes[1:])) and all(m == -1 or 0 <= m < nd for m in modes)
+        need = sum(R if m == -1 else len(k["f"][m]) * R for m in modes) if valid else 0
+        if not valid or len(data) < need:
+            return None if "exc" in o else f"an invalid update request (modes {modes}, {len(data)} values, {need} needed) was accepted"
+        if "ok" not in o:
+            return f"a valid update request (modes {modes}) was rejected ({o})"
+        w, fs, loc = list(k["w"]), [[list(r) for r in m] for m in k["f"]], 0
+        for m in modes:
+            if m == -1:
+                w = data[loc:loc + R]
+                loc += R
+            else:
+                n = len(fs[m])
+                fs[m] = [[data[loc + i + n * r] for r in range(R)] for i in range(n)]
+                loc += n * R
+        want = {"w": w, "f": fs}
+        return None if o["ok"] == want else f"update returned {o['ok']}, the blocks of the data vector give {want}"
     return None
